@@ -200,7 +200,15 @@ func (x *Exec) modelCall(st *State, key string, sig *types.Signature, args []Val
 		iv := args[0].(IfaceV)
 		x.decls.Fun("rtype_size", []string{SInt}, SInt)
 		x.decls.Fun("conv_Int_E_uintptr", []string{SInt}, "E_uintptr")
-		cont(st, Scalar{App("E_uintptr", "conv_Int_E_uintptr", App(SInt, "rtype_size", iv.Val))})
+		sz := App(SInt, "rtype_size", iv.Val)
+		if id, ok := iv.Val.IsLit(); ok {
+			if t, known := x.rtypeUsed[int(id)]; known {
+				sz = IntLit(stdSizes.Sizeof(t))
+			}
+		} else {
+			st.assume(Lt(IntLit(0), sz))
+		}
+		cont(st, Scalar{App("E_uintptr", "conv_Int_E_uintptr", sz)})
 		return true
 	case key == "reflect.Type.Kind":
 		iv := args[0].(IfaceV)
